@@ -507,10 +507,12 @@ class DocEngine:
                 snap = None
         saved = self.sut
         self.sut = active
+        self._c10_other = other
         try:
             vs = handler(op) or []
         finally:
             self.sut = saved
+            self._c10_other = None
         if other is not None:
             self.n_twin_ops += 1
         self.stats.transitions.add((name, "twin" if on_twin else "orig", self.sut.src["kind"], op.get("packaging"), op.get("kind"), op.get("part")))
@@ -1872,6 +1874,11 @@ class DocEngine:
             for a in self.artifacts:
                 if a.get("path") in (r0, g0):
                     a["dead"] = True
+        o_ = getattr(self, "_c10_other", None)
+        if tkind != "bytesio" and o_ is not None and o_.src.get("path") and o_.src["path"] in (r0, g0):
+            # (C10) this twin is saved onto the very file the other twin was lazily opened from: same situation as
+            # twin_save_over_source, reached through an ordinary save to a pre-existing target
+            self.flags.add("source_overwritten_by_clone")
         if tkind != "bytesio" and self.shadow and self.shadow.get("src_path") and self.shadow["src_path"] in (r0, g0):
             self.shadow["flags"].add("source_overwritten_by_clone")
             if os.path.isdir(self.shadow["src_path"]):
